@@ -34,6 +34,16 @@ CFG = {
                   "is kind 2. C12_race_complete proves that this judgement never rejects a round that some linearisation through the reference semantics "
                   "explains (no false alarm), C12_race_ok_perm that the listing order is irrelevant; it is NOT a proof about the Go locking (that is C11's "
                   "subject) and says nothing about schedules that were not sampled. Count and Export after each batch are compared with the epilogue reads. "
+                  "The same rule judges ~3700 SWEEPER-vs-store rounds per run: keys whose entries have just expired are refreshed by 1-2 writers each while "
+                  "the sweeper runs (1-2 goroutines looping VerifSweep = deleteExpire, or the cache's own 1 ms sentinel), optionally with a getter: the sweeper "
+                  "may remove only the old expired entry, a store that took effect must be readable after the join; C12_race_complete covers sweeps among "
+                  "the round's steps (nothing stored in the round is due). "
+                  "(8) Profile 'index-neighbours' (300 traces per run, ~40 steps, keys 0..9): 6-10 timed keys alive at once with deadlines 8-14 ms apart, "
+                  "middle deletions of the deadline index in four ways (Delete, SetNoExpire / Replace(NoExpire) over a timed key, Set with a far deadline, lazy "
+                  "eviction), refreshes and re-stores whose TTL is computed at run time from the NEIGHBOURS' deadlines in the index dump (0.3 us .. 5 ms "
+                  "before / after / equal to the predecessor's or successor's, midway between them), sweeps aligned between two deadlines, Count / "
+                  "GetWithExpire / Export after each sweep: the kind-1 dump comparison sees an unsorted index at once, the aligned sweep makes it kind 2. "
+                  "No backward (prev-pointer) listing of the index is taken: that would need a new accessor. "
                   "(6) int64 overflow of the deadline is modelled as the runtime does it (observed on Go 1.23: time.Now().Add(d).UnixNano() wraps, "
                   "Time.Add does not saturate for these d): a TTL with now + TTL >= 2^63 (more than ~235 years today) stores a NEGATIVE Expire; the code "
                   "treats it as never expiring (isVisit = Expire > 0 is false, the negative score sits in the index below the sweep range [0, now], "
